@@ -73,6 +73,7 @@ def extract(config="default", repo=REPO, verbose=True):
             env.update({
                 "LD_LIBRARY_PATH": _sysroot() + "/lib",
                 "ZKV_FACTS_DIR": out,
+                "ZKV_WORKSPACE_CRATES": ",".join(CRATES),
                 "RUSTFLAGS": "-Zmir-opt-level=0 -Cdebug-assertions=off -Coverflow-checks=on -Awarnings",
                 "RUSTC_WORKSPACE_WRAPPER": DRIVER,
                 "CARGO_TARGET_DIR": tgt,
@@ -120,7 +121,7 @@ def _prune(keep, limit=16):
 # ------------------------------------------------------------------ loading
 class Body:
     __slots__ = ("id", "path", "kind", "vis", "span", "argc", "generics", "locals", "names",
-                 "blocks", "crate", "desc", "_preds")
+                 "blocks", "crate", "desc", "_preds", "promoted")
 
     def __repr__(self):
         return "<Body %s>" % self.id
@@ -476,6 +477,31 @@ def _load_crate(prog, path):
                     stmts.append(("intrinsic", s.get("s", "")))
             blocks.append({"stmts": stmts, "term": conv_term(bb["term"]), "cleanup": bb["cleanup"]})
         o.blocks = blocks
+        o.promoted = []
+        for pb in b.get("promoted", []):
+            q = Body()
+            q.id = o.id
+            q.path = o.path + "::{promoted}"
+            q.kind = "Promoted"
+            q.vis = None
+            q.span = o.span
+            q.argc = 0
+            q.generics = o.generics
+            q.locals = [conv_ty(t) for t in pb["locals"]]
+            q.names = []
+            q.crate = crate
+            q.desc = o.desc
+            q._preds = None
+            q.promoted = []
+            pbl = []
+            for bb in pb["blocks"]:
+                stmts = []
+                for s in bb["stmts"]:
+                    if s["k"] == "assign":
+                        stmts.append(("assign", conv_place(s["p"]), conv_rv(s["rv"]), s["ln"], s["exp"]))
+                pbl.append({"stmts": stmts, "term": conv_term(bb["term"]), "cleanup": bb["cleanup"]})
+            q.blocks = pbl
+            o.promoted.append(q)
         prog.bodies[o.id] = o
         if o.kind == "Closure":
             prog.closures_of.setdefault(o.desc.get("closure_of"), []).append(o.id)
